@@ -238,5 +238,58 @@ theorem firstFrameSpec_collinear {len : V3 α → α} (hlen : LenSpec len) {pi p
   · refine ⟨?_, isAffine_frameM44 _ _ _ _⟩
     rw [rot3_frameM44]; exact isRot_tnb hut hun htn
 
+/-! ### rotationMatrixWithUpDir -/
+
+/-- `rotationMatrixWithUpDir`: identity for a zero `fromDir`, else `alignZ(fromDir, ŷ)ᵀ * alignZ(toDir, upDir)` -/
+theorem rotationMatrixWithUpDir_eq (tmin : α) (sqrt : α → α) (f t u : V3 α) :
+    (Gen.Frame.rotationMatrixWithUpDir tmin sqrt f t u).toMat =
+      if Gen.V3.length tmin sqrt f = 0 then 1
+      else (Gen.Frame.alignZAxisWithTargetDir tmin sqrt f ⟨0, 1, 0⟩).toMatᵀ * (Gen.Frame.alignZAxisWithTargetDir tmin sqrt t u).toMat := by
+  obtain ⟨fx, fy, fz⟩ := f
+  obtain ⟨tx, ty, tz⟩ := t
+  obtain ⟨ux, uy, uz⟩ := u
+  simp only [Gen.Frame.rotationMatrixWithUpDir]
+  split_ifs with h
+  · ext i j; fin_cases i <;> fin_cases j <;> simp [M44.toMat]
+  · ext i j; fin_cases i <;> fin_cases j <;>
+      simp [M44.toMat, Matrix.mul_apply, Fin.sum_univ_four]
+
+/-- 3×3 block and affine part of `Aᵀ * B` for frames `A`, `B` without translation -/
+theorem isFrame_transpose_mul {a b c : M44 α} (ha : IsFrame a) (ha3 : row3 a = ⟨0, 0, 0⟩) (hb : IsFrame b) (hb3 : row3 b = ⟨0, 0, 0⟩)
+    (h : c.toMat = a.toMatᵀ * b.toMat) :
+    IsFrame c ∧ row3 c = ⟨0, 0, 0⟩ ∧ rot3 c = (rot3 a)ᵀ * rot3 b := by
+  obtain ⟨hra, ha0, ha1, ha2, ha33⟩ := ha
+  obtain ⟨hrb, hb0, hb1, hb2, hb33⟩ := hb
+  simp only [row3, V3.mk.injEq] at ha3 hb3
+  obtain ⟨ha30, ha31, ha32⟩ := ha3
+  obtain ⟨hb30, hb31, hb32⟩ := hb3
+  have e := fun i j => congrFun (congrFun h i) j
+  have e00 := e 0 0; have e01 := e 0 1; have e02 := e 0 2; have e03 := e 0 3
+  have e10 := e 1 0; have e11 := e 1 1; have e12 := e 1 2; have e13 := e 1 3
+  have e20 := e 2 0; have e21 := e 2 1; have e22 := e 2 2; have e23 := e 2 3
+  have e30 := e 3 0; have e31 := e 3 1; have e32 := e 3 2; have e33 := e 3 3
+  simp [M44.toMat, Matrix.mul_apply, Fin.sum_univ_four, ha0, ha1, ha2, ha33, hb0, hb1, hb2, hb33, ha30, ha31, ha32, hb30, hb31, hb32]
+    at e00 e01 e02 e03 e10 e11 e12 e13 e20 e21 e22 e23 e30 e31 e32 e33
+  have hr : rot3 c = (rot3 a)ᵀ * rot3 b := by
+    ext i j; fin_cases i <;> fin_cases j <;>
+      simp [rot3, Matrix.mul_apply, Fin.sum_univ_three, e00, e01, e02, e10, e11, e12, e20, e21, e22]
+  refine ⟨⟨?_, e03, e13, e23, e33⟩, ?_, hr⟩
+  · rw [hr]; exact hra.transpose.mul hrb
+  · simp [row3, e30, e31, e32]
+
+/-- a rotation whose third row is `n` sends the row vector `n` to `ẑ` when applied transposed -/
+theorem vecMul_transpose_row2 {R : Matrix (Fin 3) (Fin 3) α} (hR : IsRot R) :
+    (fun j => R 2 j) ᵥ* Rᵀ = ![0, 0, 1] := by
+  have h := hR.1
+  have e := fun i j => congrFun (congrFun h i) j
+  ext j
+  fin_cases j
+  · have := e 2 0; simp [Matrix.mul_apply, Fin.sum_univ_three] at this
+    simp [Matrix.vecMul, dotProduct, Fin.sum_univ_three]; linear_combination this
+  · have := e 2 1; simp [Matrix.mul_apply, Fin.sum_univ_three] at this
+    simp [Matrix.vecMul, dotProduct, Fin.sum_univ_three]; linear_combination this
+  · have := e 2 2; simp [Matrix.mul_apply, Fin.sum_univ_three] at this
+    simp [Matrix.vecMul, dotProduct, Fin.sum_univ_three]; linear_combination this
+
 end More
 end ImathVerif.C09
